@@ -83,7 +83,10 @@ impl Monitor for M {
             ctx.eval();
             ctx.mark(c as u32);
             let missing = b.len() - c;
-            let res = guarded(|| dlt_message(&b[..c], None, wsh).map(|(r, pm)| (r.len(), format!("{:?}", pm))));
+            // under a sanitizer every prefix is its own allocation of exactly c bytes
+            let owned: Option<Box<[u8]>> = if ctx.sanitized() { Some(b[..c].to_vec().into_boxed_slice()) } else { None };
+            let piece: &[u8] = owned.as_deref().unwrap_or(&b[..c]);
+            let res = guarded(|| dlt_message(piece, None, wsh).map(|(r, pm)| (r.len(), format!("{:?}", pm))));
             ctx.shape(&(wsh, pk, label), c > 0);
             let detail = |got: String| {
                 J::obj()
@@ -113,7 +116,7 @@ impl Monitor for M {
             }
             if wsh {
                 ctx.eval();
-                let res = guarded(|| dlt_consume_msg(&b[..c]).map(|(r, n)| (r.len(), n)));
+                let res = guarded(|| dlt_consume_msg(piece).map(|(r, n)| (r.len(), n)));
                 match res {
                     Err(p) => ctx.panic_violation("consume.no_panic", &p, || detail("panic".into())),
                     Ok(Ok((_, None))) if c == 0 => ctx.obs("ok.consume_none_on_empty"),
